@@ -18,7 +18,10 @@ RULE = ("@given: a solver configuration as in C01 (DE, DE2, Nelder-Mead, Powell;
         "(population, energies, best, counters, both monitors, energy history) must equal A's exactly.  Non-trivial: k >= 1, "
         "m >= 2 and the best changed during the continuation; distinct by canonical JSON.")
 ASSUME = ["'same random-generator state' = python random + numpy.random global states captured at the checkpoint and restored before continuing",
-          "recording cost objects pickle to a registry lookup (the recorder is shared by copies, calls are attributed by deltas)"]
+          "recording cost objects pickle to a registry lookup (the recorder is shared by copies, calls are attributed by deltas)",
+          "DE settings given as Step/Solve keywords (strategy, CrossProbability, ScalingFactor) are part of the solver's state "
+          "(the code stores them: 'sticky'), so a restored solver continued with a bare Step()/Solve() goes on with them, as a "
+          "user resuming an interrupted Solve(strategy=...) from its restart file expects"]
 
 
 @st.composite
@@ -33,6 +36,8 @@ def cases(draw, tier):
         k = max(n, (k // n) * n)
     m = draw(st.integers(2, 5))
     cfg['maxiter'] = k + m + 3
+    # DE settings given as Step/Solve keywords (as Solve(strategy=...) forwards them to every Step) instead of attributes
+    cfg['de_kwargs'] = cfg['solver'] in ('DE', 'DE2') and draw(st.booleans())
     cfg.update(path=path, savefreq=n, k=k, m=m,
                stepmon=draw(st.sampled_from([None, 'plain', 'verbose', 'logging', 'vlogging'])),
                evalmon=draw(st.sampled_from([None, 'plain', 'plain', 'logging'])),
@@ -40,8 +45,19 @@ def cases(draw, tier):
     return cfg
 
 
+def de_kw(case):
+    """the keywords a Solve(strategy=..., CrossProbability=..., ScalingFactor=...) call forwards to every Step"""
+    if not case.get('de_kwargs'):
+        return {}
+    import mystic.strategy as mstrat
+    return dict(strategy=getattr(mstrat, case['strategy']), CrossProbability=F(case['CR']), ScalingFactor=F(case['F']))
+
+
 def build(case, ctx, tag):
-    run = Run(case, ctx)
+    cfg = case
+    if case.get('de_kwargs'):
+        cfg = dict(case); cfg['strategy'] = None; cfg['CR'] = None; cfg['F'] = None
+    run = Run(cfg, ctx)
     s = run.solver
     d = ctx.mkdtemp()
     if case.get('evalmon'):
@@ -70,8 +86,9 @@ def run_case(case, ctx):
     # ---- run A: uninterrupted
     runA, dA, fnA = build(case, ctx, 'A')
     SA = []
+    kwA = de_kw(case)
     for b in range(total + 1):
-        msg = runA.step()
+        msg = runA.solver.Step(callback=runA.cb, **kwA)       # uninterrupted: the keywords on every Step, as Solve does
         SA.append(lab.snapshot(runA.solver))
         if msg: break
     if len(SA) < total + 1:
@@ -91,7 +108,7 @@ def run_case(case, ctx):
                 with open(fnB, 'rb') as fh:
                     blob['bytes'] = fh.read()          # copy the dump at once: later saves overwrite the file
     for b in range(k + 1):
-        sB.Step(callback=cb)
+        sB.Step(callback=cb, **kwA)
         d = lab.snap_equal(SA[b], lab.snapshot(sB))
         if d is not None:
             raise AssertionError('harness: runs A and B diverge before the checkpoint at boundary %d on %s' % (b, d))
@@ -122,7 +139,7 @@ def run_case(case, ctx):
     # ---- optionally advance the original first (it must follow A, and must not disturb the restored one)
     cost = runB.cost
     for j in range(case['advance']):
-        sB.Step(callback=runB.cb)
+        sB.Step(callback=runB.cb, **kwA)
         d = lab.snap_equal(SA[k + 1 + j], lab.snapshot(sB))
         ctx.expect(d is None, 'C06.original_continues', lambda: dict(solver=runB.kind, boundary=k + 1 + j, differs=d, path=path))
     # ---- restore
@@ -174,7 +191,7 @@ def run_case(case, ctx):
     # advancing the original must not change the restored one
     snap2 = lab.snapshot(s2)
     lab.set_rng_state(state['rng'])
-    sB.Step(callback=runB.cb)
+    sB.Step(callback=runB.cb, **kwA)
     d3 = lab.snap_equal(snap2, lab.snapshot(s2))
     ctx.expect(d3 is None, 'C06.independent',
                lambda: dict(solver=runB.kind, path=path, differs=d3, note='advancing the original changed the restored/copied solver'))
@@ -183,6 +200,7 @@ def run_case(case, ctx):
         if case.get(kk): ctx.label(kk)
     if case.get('constraint'): ctx.label('con:' + case['constraint']['kind'])
     if case['advance']: ctx.label('original-advanced-first')
+    if case.get('de_kwargs'): ctx.label('de-settings-as-keywords')
     ctx.nontrivial(k >= 1 and n_steps >= 2 and changed)
 
 
